@@ -296,6 +296,9 @@ def _walk(t):
                 raise Malformed('piecewise child')
         return
     if tag == 'apply':
+        if len(ch) == 1 and ch[0][0] not in OPERATORS:
+            _walk(ch[0])        # an <apply> around a single value is that value (the implementation's suite relies on it)
+            return
         if not ch or ch[0][0] not in OPERATORS or ch[0][4]:
             raise Malformed('apply without operator')
         op, args = ch[0][0], ch[1:]
@@ -336,6 +339,8 @@ def _walk(t):
 
 
 def apply(ch, env):
+    if len(ch) == 1 and ch[0][0] not in OPERATORS:
+        return operand(ch[0], env)
     if not ch or ch[0][0] not in OPERATORS or ch[0][4]:
         raise Malformed('apply without operator')
     op, args = ch[0][0], ch[1:]
@@ -1049,15 +1054,15 @@ def gen_numbers():
         out.append({'kind': 'cn', 'tree': cn(text)})
     malformed = ['1_0', '1__0', '_1', '1_', '1_.5', '1._5', '1.5_5', '1e1_0', '1e_1', 'nan', 'NaN', '-nan', 'inf', '-inf',
                  '+Infinity', 'infinity', 'INF', 'infinit', 'in', '', ' ', '1..2', '1.2.3', '..', '.', '+', '-', '+-1',
-                 '--1', '1-', '1 2', '1,5', '0x10', '1f', 'abc', '1e5e2', '1/2', '1e', '12e3.0', ' 1.5 ', '\n2\t',
-                 '1 e3', '1e 3', '1.5E+3', '.5e-1', '5.e1', 'e5', '.e5', '1d5', '1j', '(1)', '1e+', '0_0', '1_000.000_1']
+                 '--1', '1-', '1 2', '1,5', '0x10', '1f', 'abc', '1e5e2', '١٢', '1/2', '1e', '12e3.0', ' 1.5 ', '\n2\t',
+                 '1 e3', '1e 3', '٣', '1.5E+3', '.5e-1', '5.e1', 'e5', '.e5', '1d5', '1j', '(1)', '1e+', '0_0', '1_000.000_1']
     for m in malformed:
         out.append({'kind': 'cn-malformed', 'tree': cn(m)})
     # e-notation
     mants = ['1.5', '1.1', '6.02214076', '-2.5', '+3', '.5', '5.', '0', '007.10', '9.999999999999999', '1.2345678901234567',
              '3.3', '7e2', '1_0', 'nan', 'inf', '', ' ', ' 1.5 ', '1..5', '1,5', 'x', '-', '1.5e']
     exs = ['3', '-3', '+3', '0', '23', '-23', '22', '-25', '16', '-7', ' 2 ', '1_0', '3.0', '1e1', '', ' ', 'x', '--1',
-           '0x1', '+', '-0']
+           '0x1', '+', '٣', '-0']
     for m, x in itertools.product(mants, exs):
         out.append({'kind': 'cn-enotation', 'tree': cn_e(m, x)})
     # the structure of e-notation, other types
@@ -1184,31 +1189,6 @@ def _accepts_malformed(v):
     return v.get('detail', {}).get('kind') == 'accepts-malformed'
 
 
-def operator_only_apply(v):
-    """an <apply> with a single child returns that child (operator closure, class, …) instead of raising; so does an
-    operator element directly under <math>"""
-    tree = v['case']['tree']
-    return _accepts_malformed(v) and (tree[0] in OPERATORS or
-                                      any(t[0] == 'apply' and len(t[4]) == 1 for t, _, _ in _nodes(tree)))
-
-
-def ln_two_operands(v):
-    return _accepts_malformed(v) and any(
-        t[0] == 'apply' and len(t[4]) == 3 and t[4][0][0] == 'ln' for t, _, _ in _nodes(v['case']['tree']))
-
-
-def _py_only_number(s):
-    s = (s or '').lower()
-    return '_' in s or 'inf' in s or 'nan' in s
-
-
-def cn_python_only_spelling(v):
-    """float()/int() spellings that are not MathML numbers: underscores, inf, nan"""
-    return _accepts_malformed(v) and any(
-        t[0] == 'cn' and (_py_only_number(t[2]) or any(_py_only_number(c[3]) for c in t[4]))
-        for t, _, _ in _nodes(v['case']['tree']))
-
-
 def _proper_place(t, parent, pos):
     tag = t[0]
     if parent is None:
@@ -1248,22 +1228,6 @@ def qualifier_misuse(v):
     return False
 
 
-def diff_degree_not_positive_integer(v):
-    """<degree> of a derivative that is not a positive integer literal is truncated / dropped by int()"""
-    if not _accepts_malformed(v):
-        return False
-    for t, parent, pos in _nodes(v['case']['tree']):
-        if t[0] == 'bvar' and len(t[4]) == 2 and t[4][1][0] == 'degree' and len(t[4][1][4]) == 1:
-            d = t[4][1][4][0]
-            try:
-                q = cn_exact(d) if d[0] == 'cn' else None
-            except Malformed:
-                q = None
-            if q is None or q.denominator != 1 or q < 1:
-                return True
-    return False
-
-
 def _has_partial_piecewise(t):
     return any(n[0] == 'piecewise' and not any(c[0] == 'otherwise' for c in n[4]) for n, _, _ in _nodes(t))
 
@@ -1276,25 +1240,9 @@ def partial_piecewise_in_condition(v):
                for t, _, _ in _nodes(v['case']['tree']))
 
 
-def ignored_children(v):
-    """element children of ci, cn (other than one <sep/>), of operator and constant elements are never looked at"""
-    if not _accepts_malformed(v):
-        return False
-    for t, parent, pos in _nodes(v['case']['tree']):
-        if t[4] and (t[0] == 'ci' or t[0] in OPERATORS or t[0] in CONSTS or
-                     (t[0] == 'cn' and t[1] != 'e-notation')):
-            return True
-    return False
-
-
 KNOWN_PREDICATES = {
-    'ignored_children': ignored_children,
     'partial_piecewise_in_condition': partial_piecewise_in_condition,
-    'operator_only_apply': operator_only_apply,
-    'ln_two_operands': ln_two_operands,
-    'cn_python_only_spelling': cn_python_only_spelling,
     'qualifier_misuse': qualifier_misuse,
-    'diff_degree_not_positive_integer': diff_degree_not_positive_integer,
 }
 
 
@@ -1345,7 +1293,7 @@ def run(ctx):
                 'mantissas x 22 exponents, type attribute and <sep/> structure.  RANDOM: well-formed compositions of '
                 'depth 2..5 with distinct identifiers.  Values compared at operand tuples from {-2.5,-1,0,0.5,1,3}^k '
                 '(all tuples for k<=2, 12 otherwise); non-trivial = at least 4 elements')
-    ctx.trusted += ['tools/translate_transpiler.py (_SIMPLE_MATHML_TO_SYMPY_CLASSES, MATHML_NARY_RELATIONS, self.handlers '
+    ctx.trusted += ['tools/translate_transpiler.py (_SIMPLE_MATHML_TO_SYMPY_CLASSES, MATHML_NARY_RELATIONS, MATHML_UNARY_OPERATORS, MATHML_CONTAINERS, self.handlers '
                     '-> Gen/TranspileTables_gen.v)',
                     'Model/Transpile.v sympy_table/method_table: what each sympy attribute and each handler method does '
                     '(exercised exhaustively by the correspondence)',
